@@ -41,7 +41,13 @@ fn main() -> ExitCode {
             }
         })
         .unwrap();
-    let code = handle.join().unwrap_or(2);
+    let code = match handle.join() {
+        Ok(c) => c,
+        Err(_) => {
+            eprintln!("harness error: {:?}", runner::take_panic_pub());
+            2
+        }
+    };
     ExitCode::from(code as u8)
 }
 
